@@ -238,7 +238,10 @@ func (ex *Exec) dispatch(v ssa.Value, cc *ssa.CallCommon, instr ssa.Instruction,
 			}
 			return
 		}
-		ex.abstractCall(v, "invoke "+key)
+		ex.havocTargets("invoke "+key, vc.ctx.modsets().graph.dispatch(cc.Value.Type(), cc.Method))
+		if v != nil {
+			ex.freshVal(v, "abs")
+		}
 		return
 	}
 	callee := cc.StaticCallee()
@@ -296,7 +299,10 @@ func (ex *Exec) dispatch(v ssa.Value, cc *ssa.CallCommon, instr ssa.Instruction,
 			ex.applyContract(v, fc, cname, names, all, callee.Signature, instr)
 			return
 		}
-		ex.abstractCall(v, cname)
+		ex.havocCallee(cname, callee)
+		if v != nil {
+			ex.freshVal(v, "abs")
+		}
 		return
 	}
 	ex.external(v, callee, cc, args)
@@ -399,7 +405,7 @@ func (ex *Exec) applyContract(v ssa.Value, fc *FuncContract, cname string, names
 			}
 		}
 	default:
-		ex.havocAll("noframe:" + cname)
+		ex.havocCallee("noframe:"+cname, vc.ctx.funcs[cname])
 		post = ex.cur.heap
 	}
 	if post.alloc == pre.alloc {
